@@ -15,6 +15,7 @@ import DTML.TreeState
 import DTML.Scan
 import DTML.Parse
 import DTML.Render
+import DTML.Tmpl
 open Lean DTML
 
 namespace Driver
@@ -492,6 +493,61 @@ def opRender (j : Json) : Except String Json := do
 
 end RJ
 
+
+namespace TJ
+open DTML.Tmpl
+
+abbrev D := List (String × Int)
+
+def dict (j : Json) : Except String D := do
+  (← j.getArr?).toList.mapM fun p => do
+    let a ← p.getArr?
+    return ((← a[0]!.getStr?), (← a[1]!.getInt?))
+
+def jDict (d : D) : Json := Json.arr (d.map fun (k, v) => Json.arr #[Json.str k, jInt v]).toArray
+
+/-- the concrete engine of the correspondence: sources and programs are numbers (a program is
+"the compilation of source n"), a rendering is the tuple of what it depends on -/
+def engine : Engine Nat Nat D D (Nat × D × D × D) :=
+  { parse := fun s => s,
+    exec := fun p g v i => (p, g, v, i),
+    initvars := fun m kw => kw ++ m.filter (fun e => !(e.1.startsWith "_") && !(kw.any (·.1 == e.1))),
+    update := fun d kw => d.filter (fun e => !(kw.any (·.1 == e.1))) ++ kw,
+    empty := [] }
+
+def op (j : Json) : Except String (Op Nat D D) := do
+  let a ← j.getArr?
+  match (← a[0]!.getStr?) with
+  | "render" => return .render (← dict a[1]!)
+  | "pickle" => return .pickle
+  | "deepcopy" => return .deepcopy
+  | "cook" => return .cook
+  | "mungeSrc" => return .mungeSrc (← a[1]!.getNat?)
+  | "mungeVars" => return .mungeVars (← dict a[1]!) (← dict a[2]!)
+  | "mungeBoth" => return .mungeBoth (← a[1]!.getNat?) (← dict a[2]!) (← dict a[3]!)
+  | "var" => return .var (← dict a[1]!)
+  | "default" => return .default (← dict a[1]!)
+  | k => throw s!"tmpl op {k}"
+
+def jState (t : Tmpl Nat Nat D) (out : Option (Nat × D × D × D)) : Json :=
+  Json.mkObj [("raw", Json.num t.raw), ("globals", jDict t.globals), ("vars", jDict t.vars),
+    ("cooked", match t.cooked with | some p => Json.num p | none => Json.null),
+    ("out", match out with
+      | some (p, g, v, i) => Json.arr #[Json.num p, jDict g, jDict v, jDict i]
+      | none => Json.null)]
+
+/-- op "tmpl": a history of operations on a template object -/
+def opTmpl (j : Json) : Except String Json := do
+  let init ← (← j.getObjVal? "init").getArr?
+  let t0 := fresh engine (← init[0]!.getNat?) (← dict init[1]!) (← dict init[2]!)
+  let ops ← (← (← j.getObjVal? "ops").getArr?).toList.mapM op
+  let (_, outs) := ops.foldl (fun (acc : Tmpl Nat Nat D × List Json) o =>
+    let (t', out) := step engine acc.1 o
+    (t', acc.2 ++ [jState t' out])) (t0, [])
+  return Json.arr outs.toArray
+
+end TJ
+
 def handle (j : Json) : Except String Json := do
   let op ← getStr j "op"
   match op with
@@ -508,6 +564,7 @@ def handle (j : Json) : Except String Json := do
   | "tokens" => opTokens j
   | "compile" => opCompile j
   | "render" => RJ.opRender j
+  | "tmpl" => TJ.opTmpl j
   | "ping" => return Json.str "pong"
   | _ => throw s!"unknown op {op}"
 
